@@ -239,8 +239,15 @@ def subject_seg(r, nr):
         from pydicom.uid import RLELossless, ExplicitVRLittleEndian
         kw['transfer_syntax_uid'] = r.choice([ExplicitVRLittleEndian, RLELossless] if styp != ST.BINARY else [ExplicitVRLittleEndian])
 
+    # every accepted spelling: the enumeration member or its string value; a list or a tuple of source images / descriptions
+    styp_arg = styp if r.random() < 0.5 else styp.value
+    if r.random() < 0.3:
+        src = tuple(src)
+    if r.random() < 0.3:
+        descs = tuple(descs)
+
     def call(source_images, pixel_array, segment_descriptions, **more):
-        return hd.seg.Segmentation(source_images, pixel_array, styp, segment_descriptions, **more, **kw)
+        return hd.seg.Segmentation(source_images, pixel_array, styp_arg, segment_descriptions, **more, **kw)
     return {'name': 'seg.Segmentation', 'variant': (kind, styp.value, dtype, stacked, arr.ndim, how, nseg > 1,
                                                      kw.get('max_fractional_value'), tuple(sorted(inputs_extra)), txt_class),
             'text_class': txt_class, 'call': call, 'inputs': {'source_images': src, 'pixel_array': arr, 'segment_descriptions': descs, **inputs_extra}}
@@ -349,6 +356,8 @@ def subject_sc(r, nr):
                 'inputs': {'pixel_array': arr, 'ref_dataset': ref}}
 
     spacing = (num(r, 0.5), num(r, 0.5)) if r.random() < 0.5 else None
+    if spacing is not None:
+        spacing = r.choice([tuple, list, np.array])(spacing)        # tuple, list or ndarray
 
     def call(pixel_array):
         return hd.sc.SCImage(pixel_array=pixel_array, photometric_interpretation='RGB' if color else 'MONOCHROME2',
